@@ -231,6 +231,35 @@ func (t *FnTrans) ghostUpdate(g *Clause, env *Env) {
 		t.tokenStmt(g, env)
 		return
 	}
+	if strings.HasPrefix(g.Text, "choose ") {
+		// choose lhs1, lhs2 with <expr>: the ghost locations get new values constrained by <expr>;
+		// inside <expr>, old(e) is the value of e just before this statement
+		rest := g.Text[len("choose "):]
+		i := strings.Index(rest, " with ")
+		if i < 0 {
+			t.fail("%s:%d: choose needs 'with'", g.File, g.Line)
+		}
+		cond, err := ParseExpr(strings.TrimSpace(rest[i+6:]))
+		if err != nil {
+			t.fail("%s:%d: %v", g.File, g.Line, err)
+		}
+		before := t.cur.clone()
+		env.st = t.cur
+		for _, lhs := range splitTop(rest[:i]) {
+			le, err := ParseExpr(lhs)
+			if err != nil {
+				t.fail("%s:%d: %v", g.File, g.Line, err)
+			}
+			t.ghostAssign(g, env, le, "", true)
+		}
+		env.st = t.cur
+		saveOld := env.old
+		env.old = before
+		t.assume(env.evalBool(cond))
+		env.old = saveOld
+		t.abstr["ghost choose (definitional): "+g.Text[:minInt(len(g.Text), 60)]] = true
+		return
+	}
 	if strings.HasPrefix(g.Text, "assert ") {
 		e, err := ParseExpr(strings.TrimSpace(g.Text[len("assert "):]))
 		if err != nil {
@@ -262,6 +291,18 @@ func (t *FnTrans) ghostUpdate(g *Clause, env *Env) {
 	}
 	env.st = t.cur
 	rhs := env.eval(rhsE)
+	t.ghostAssign(g, env, lhsE, rhs.S, false)
+}
+
+func minInt(a, b int) int {
+	if a < b {
+		return a
+	}
+	return b
+}
+
+// ghostAssign stores val (or, with havoc, a fresh value) into the ghost location lhsE.
+func (t *FnTrans) ghostAssign(g *Clause, env *Env, lhsE *Expr, val string, havoc bool) {
 	switch lhsE.Op {
 	case "id":
 		s, ok := t.eng.specs.Ghosts[env.pkg.Path()+"."+lhsE.Name]
@@ -269,8 +310,13 @@ func (t *FnTrans) ghostUpdate(g *Clause, env *Env) {
 			t.fail("%s:%d: unknown ghost global %s", g.File, g.Line, lhsE.Name)
 		}
 		c := t.comp("GG."+env.pkg.Path()+"."+lhsE.Name, s)
-		t.set(c, rhs.S)
-		t.checkGlobalInv("ghost update of " + lhsE.Name)
+		if havoc {
+			val = t.newConst(c+"@choose", s)
+		}
+		t.set(c, val)
+		if !havoc {
+			t.checkGlobalInv("ghost update of " + lhsE.Name)
+		}
 	case "sel":
 		base := env.eval(lhsE.Args[0])
 		n, ok := derefNamed(env.resolveT(base.T))
@@ -281,8 +327,12 @@ func (t *FnTrans) ghostUpdate(g *Clause, env *Env) {
 		if ts == nil || ts.GhostField[lhsE.Name] == "" {
 			t.fail("%s:%d: unknown ghost field %s", g.File, g.Line, lhsE.Name)
 		}
-		c := t.comp("H."+originName(n)+".$"+lhsE.Name, "(Array Int "+ts.GhostField[lhsE.Name]+")")
-		t.set(c, app("store", t.get(c), base.S, rhs.S))
+		gsort := t.ghostSort(ts.GhostField[lhsE.Name], n)
+		c := t.comp("H."+originName(n)+".$"+lhsE.Name, "(Array Int "+gsort+")")
+		if havoc {
+			val = t.newConst(c+"@choose", gsort)
+		}
+		t.set(c, app("store", t.get(c), base.S, val))
 	default:
 		t.fail("%s:%d: unsupported ghost lhs", g.File, g.Line)
 	}
@@ -1028,7 +1078,7 @@ func (t *FnTrans) staticMod(x *Expr, ptypes map[string]types.Type, pkg *types.Pa
 		}
 		if ts := t.eng.specs.Types[typeName(ST)]; ts != nil {
 			if gs, ok := ts.GhostField[x.Name]; ok {
-				t.w(l, "H."+originName(ST)+".$"+x.Name, "(Array Int "+gs+")")
+				t.w(l, "H."+originName(ST)+".$"+x.Name, "(Array Int "+t.ghostSort(gs, ST)+")")
 				return true
 			}
 		}
